@@ -12,8 +12,10 @@ binding: code -> spec with fault enumeration: for each base scenario the clean r
 
 from __future__ import annotations
 
+import base64
 import json
 import random
+import re
 
 from .. import drawkit, tlc, vt_conf
 from ..core import Report
@@ -26,7 +28,127 @@ ASSUMPTIONS = c06.ASSUMPTIONS + [
     "crash points range over every operation issued before draw()'s own clean-up starts; a "
     "Ctrl-C that arrives before the animation proper has started (while the cursor is being "
     "hidden) may propagate - only restoration is required there",
+    "'the render data is finalized' is read off the live RenderData instance(s) generated for the "
+    "call (the probe keeps them referenced) at the moment draw() returns / raises: finalization by "
+    "RenderData.__del__ when the garbage collector reaches the object is not draw()'s doing",
+    "kitty transmissions: the grid payload class (1 / 2 / 3+ chunks x raw payload within / beyond "
+    "one chunk) x cut class (after which symbol of which chunk the write stops) of KittyCut.tla is "
+    "realised with noise images (incompressible) whose pixel size is set through the cell size; "
+    "a cell that cannot be realised is a machinery error, not a pass",
 ]
+
+# candidate cell sizes (w, h) for a 3x2-cell render: raw RGB payloads from ~0.9 kB to ~9.5 kB per
+# transmission for both render methods (WHOLE: one transmission per frame, LINES: one per line)
+KITTY_CELL_SIZES = [(8, 12), (12, 18), (12, 30), (14, 21), (14, 40), (16, 33), (16, 66), (10, 15), (13, 20), (20, 90)]
+_KITTY_CMD = re.compile(r"\x1b_G([^;\x1b]*)(?:;([^\x1b]*))?\x1b\\")
+
+
+def kitty_transmissions(data: str):
+    """Image transmissions in one write: [[chunk, ...], ...]; chunk = offsets of the symbols of
+    KittyCut.tla within ``data`` (dumb scanning, no judgement)."""
+    out, cur = [], None
+    for mt in _KITTY_CMD.finditer(data):
+        control, payload = mt.group(1), mt.group(2) or ""
+        keys = dict(item.partition("=")[::2] for item in control.split(",") if item)
+        if keys.get("a") == "d":
+            continue
+        start, st = mt.start(), mt.end() - 2
+        ctl0 = start + 3
+        semi = ctl0 + len(control)
+        only_m = set(keys) <= {"m", "q"}
+        mpos = control.rfind("m=")
+        chunk = {"nothing": start, "apc": ctl0, "keys": ctl0 + max(mpos - 1, 0), "m": semi,
+                 "pay1": semi + 1 + len(payload) // 2, "pay2": st, "esc": st + 1, "bsl": st + 2,
+                 "mval": keys.get("m"), "payload": payload}
+        if not only_m:
+            cur = [chunk]
+            out.append(cur)
+        elif cur is not None:
+            cur.append(chunk)
+        if keys.get("m") != "1":
+            cur = None
+    return out
+
+
+def kitty_class(chunks) -> tuple:
+    raw = len(base64.b64decode("".join(c["payload"] for c in chunks)))
+    return min(len(chunks), 3), raw <= 4096
+
+
+def kitty_grid(rep: Report) -> list:
+    """The (payload class x cut class) cells of KittyCut.tla, checked at the design level."""
+    res = tlc.run("MC_KittyCut", "MC_KittyCut.cfg", workers=2, timeout=300, coverage=True)
+    rep.add_tlc(res)
+    if not res.violated and res.coverage.get("Receive", (0, 0))[0] < 1000:
+        raise tlc.MachineryError(f"MC_KittyCut: action Receive is vacuous: {res.coverage}")
+    if res.violated:
+        rep.violation(f"design:KittyCut:{res.violated}", res.error_text[:1500], {"kind": "design"})
+        return []
+    cells = {}
+    for c in res.tagged("CELL"):
+        cells[(c["n"], c["fits"], c["role"], c["after"])] = c
+    if len(cells) < 50 or not any(c["open"] for c in cells.values()):
+        raise tlc.MachineryError(f"only {len(cells)} CELL lines from MC_KittyCut")
+    rep.extra["kitty_cut_grid"] = len(cells)
+    return [cells[k] for k in sorted(cells)]
+
+
+def kitty_cut_jobs(rep: Report, cells: list) -> list:
+    """spec -> code: every cell of the grid realised against the real KittyImage.draw() for both
+    render methods, with and without compression (still; animated for two of the four)."""
+    if not cells:
+        return []
+    configs = [(m, c, 1) for m in ("whole", "lines") for c in (0, None)]
+    configs += [("whole", None, 2), ("lines", 0, 2)]
+    if rep.tier == "thorough":
+        configs += [("whole", 0, 2), ("lines", None, 2)]
+    wanted = sorted({(c["n"], c["fits"]) for c in cells})
+    jobs, realised = [], {}
+    for method, compress, frames in configs:
+        done = set()
+        for cw, ch in KITTY_CELL_SIZES:
+            if len(done) == len(wanted) and rep.tier == "quick":
+                break
+            case = dict(api="old", style="kitty", ident="kitty", frames=frames, rw=3, rh=2,
+                        h_align="<", pad_width=3, v_align="^", pad_height=2, repeat=1, cached=False,
+                        cols=8, rows=6, tty=True, r0=0, method=method, cell=[cw, ch],
+                        src=[3 * cw, 2 * ch], noise=True,
+                        style_args={} if compress is None else {"compress": compress})
+            clean = c06.run_case(case)
+            if clean["outcome"] != "ok":
+                raise tlc.MachineryError(f"clean run of a C07 kitty case failed: {clean['outcome']} {case}")
+            ops = clean["ops"]
+            boundary = drawkit.cleanup_boundary(ops)
+            frames_written = []  # (operation number, first transmission of that write)
+            for i, (kind, data) in enumerate(ops[:boundary], 1):
+                if kind == "write" and data:
+                    t = kitty_transmissions(data)
+                    if t:
+                        frames_written.append((i, t[0]))
+            if not frames_written:
+                raise tlc.MachineryError(f"no kitty transmission in the output of {case}")
+            for k, tx in reversed(frames_written):  # (animations: later frames first)
+                cls = kitty_class(tx)
+                if cls in done and rep.tier == "quick":
+                    continue
+                done.add(cls)
+                for cell in cells:
+                    if (cell["n"], cell["fits"]) != cls:
+                        continue
+                    chunk = tx[0] if cell["role"] in ("only", "first") else tx[1] if cell["role"] == "mid" else tx[-1]
+                    for fk in ("kbint", "exc") if cell["open"] else ("kbint",):
+                        f = dict(k=k, p=chunk[cell["after"]], kind=fk,
+                                 cell=[cell["n"], cell["fits"], cell["role"], cell["after"]])
+                        jobs.append((case, f, expected(case, f, k, ops)))
+            realised[f"{method}/{'default' if compress is None else compress}/{frames}"] = sorted(done)
+        missing = [w for w in wanted if w not in done]
+        if missing:
+            raise tlc.MachineryError(
+                f"payload classes {missing} of KittyCut.tla not realised for method={method} "
+                f"compress={compress} frames={frames} (candidates {KITTY_CELL_SIZES})")
+    rep.extra["kitty_cut_realised"] = realised
+    rep.extra["kitty_cut_jobs"] = len(jobs)
+    return jobs
 
 
 def base_cases(rng, tier):
@@ -138,8 +260,10 @@ def main(rep: Report, replay: dict | None) -> None:
         "fault enumeration: base scenarios (both APIs, still/animated, tty/non-tty, hide_cursor/"
         "echo_input, block/kitty/iterm2 x terminal identity) x every pre-clean-up operation k x "
         "delivered-prefix classes (quick) or every character position (thorough) x "
-        "{KeyboardInterrupt, Exception}; each faulted run validated by TLC; distinct = distinct "
-        "(scenario, k, prefix, kind) whose fault actually fired"
+        "{KeyboardInterrupt, Exception}; kitty: every cell of KittyCut.tla's grid (payload class: "
+        "1/2/3+ chunks x raw within/beyond one chunk; cut class: after each symbol of the first / a "
+        "middle / the last chunk) x {whole, lines} x {compress=0, default}; each faulted run "
+        "validated by TLC; distinct = distinct (scenario, k, prefix, kind) whose fault actually fired"
     )
     rng = random.Random(rep.seed * 613 + 11)
     if not replay:
@@ -166,8 +290,15 @@ def main(rep: Report, replay: dict | None) -> None:
                 # a raising finalizer hook of the renderable (runs at the very end of draw()'s
                 # clean-up): the exception reaches the caller, the terminal is restored all the same
                 jobs.append((case, dict(k=0, p=0, kind="exc", hook="finalize"), "InjectedError"))
+                if case["tty"] and not case.get("echo_input", False):
+                    # the attribute set-up (first tcsetattr: after the hide-cursor write, before the
+                    # first render) fails or is interrupted: a crash point before any frame exists
+                    for fk in ("kbint", "exc"):
+                        f = dict(k=0, p=0, kind=fk, hook="tcsetattr")
+                        jobs.append((case, f, expected(case, f, 0, ops)))
             rep.sample({"case": case, "ops_before_cleanup": boundary,
                         "ops": [o[0] for o in ops][:40]})
+        jobs += kitty_cut_jobs(rep, kitty_grid(rep))
     traces, owners = [], []
     for case, fault, expect in jobs:
         rep.evaluations += 1
